@@ -437,7 +437,7 @@ def main_check(pid, tier, runs=None, budget=None, jobs=None, replay=None, eviden
         print("  " + vv["msg"][:1500].replace("\n", "\n  "))
         report.append({"sig": sig, "known": False, "count": len(lst), "replay": path, "reproduced": True})
     if n_harness:
-        print("HARNESS-ERROR: %d run(s) raised inside the machinery; first:\n%s" % (n_harness, harness[0]["error"][-3000:]))
+        print("HARNESS-ERROR: %d run(s) raised inside the machinery; first (run index %s, label %s):\n%s" % (n_harness, harness[0]["index"], ((harness[0].get("case") or {}).get("input") or {}).get("label"), harness[0]["error"][-3000:]))
     if unconfirmed:
         print("HARNESS-ERROR: %d violation signature(s) seen that do not reproduce from a replay file" % unconfirmed)
     if done == 0:
